@@ -82,5 +82,21 @@ SPEC = Spec(
         "one scrape at a time per controller (the controller's single goroutine), operations of one ObsReport/processor are modelled "
         "as atomic counter additions (OTel counters are atomic; concurrent histories are some sequence of them: C19_receiver_concurrent; "
         "exercised by the concurrent receiver mode, also under the race detector)",
+            "exporter counters sentOf/failedOf/keptOf/enqFailedWfrOf are DEFINITIONS over the C03 LTS state ('items read before the send, "
+        "attributed by the final error' is encoded in them, not derived from a model of obsReportSender/obsQueue); their tie to the code "
+        "is the differential: `obs counters` (trace-level predict, every case) and `prop lts` (counters of the replayed LTS state, skipped "
+        "for queue-less exporters and non-returning shutdowns: see input_distribution lts_replayable / lts_not_replayable)",
+        "refused offers are outside the C03 LTS; the three-counter theorems are over XState (LTS state + given + refused items)",
+        "partial failures (Request.OnError narrowing) are generated and the counters diffed; in the LTS a flight keeps the items read "
+        "before the first attempt (that IS what obsReportSender counts) and only counts attempts",
+        "persistent-queue balance and wait_for_result balance are proved only in _partial form (open findings, kernel-checked "
+        "counterexamples of the full statements); the memory-queue balance is proved in full for the repaired code (offers refused after stop)",
+        "gauges: capacity gauge = configured capacity is compared on every reading but has no theorem (Capacity() returns a constant; the "
+        "callback wiring is not extracted by a translator); size gauge theorem for the memory queue only (unique item ids, non-empty "
+        "requests); readings are SAMPLED at quiescent instants (before every second send and before Shutdown; ~73% comparable with the "
+        "ledger); after Shutdown the gauges are unregistered; persistent-queue Size() (reset when drained) compared only when nothing is outstanding",
+        "C19_gauge_size is an arithmetic identity about the add/onDone fold, kept from round 1; the tie of the size gauge is C19_gauge_lts + prop gaugelts",
+        "attribute sets of the exporter/receiver/processor counters are summed over all data points (ids/transport not compared); "
+        "obsconsumer compares exact attribute sets",
     ],
 )
